@@ -64,26 +64,31 @@ MCLn3   == << <<>>, <<"a">>, <<"service_name", "zz">> >>
 (****************************** the requests *******************************)
 NoType == Ty("", "", "", "", "")
 \* a request in the state: pool indices only
-R(ep, T, sel, gb, agg, w, name, ln, m) == [ep |-> ep, T |-> T, sel |-> sel, gb |-> gb, agg |-> agg, w |-> w, name |-> name, ln |-> ln, m |-> m]
-None == R("none", 0, 1, 1, "sum", 1, 0, 1, FALSE)
+\* sel2 (0 = none): a second matcher, for the endpoints that take a list of matchers
+R(ep, T, sel, gb, agg, w, name, ln, sel2) == [ep |-> ep, T |-> T, sel |-> sel, gb |-> gb, agg |-> agg, w |-> w, name |-> name, ln |-> ln, sel2 |-> sel2]
+None == R("none", 0, 1, 1, "sum", 1, 0, 1, 0)
 AllT == DOMAIN TypeReqs
-PlanT == {R("SelectSeries", T, 1, gb, "sum", w, 0, 1, FALSE) : T \in AllT, gb \in DOMAIN GbSeq, w \in DOMAIN WinSeq}
-         \cup {R("SelectSeries", T, sel, gb, "sum", 1, 0, 1, FALSE) : T \in AllT, sel \in DOMAIN SelSeq, gb \in DOMAIN GbSeq}
-         \cup {R("SelectSeries", T, 1, gb, "avg", w, 0, 1, FALSE) : T \in AllT, gb \in DOMAIN GbSeq \cap {1, 2}, w \in DOMAIN WinSeq \cap {1, 2}}
-         \cup {R("GetProfileStats", 0, 1, 1, "sum", 1, 0, 1, FALSE)}
-PlanM == {R("SelectMergeProfile", T, sel, 1, "sum", w, 0, 1, FALSE) : T \in AllT, sel \in DOMAIN SelSeq, w \in DOMAIN WinSeq}
-         \cup {R("AnalyzeQuery", 0, sel, 1, "sum", w, 0, 1, FALSE) : sel \in DOMAIN SelSeq, w \in DOMAIN WinSeq}
-PlanL == {R("ProfileTypes", 0, 1, 1, "sum", 1, 0, 1, FALSE), R("GetProfileStats", 0, 1, 1, "sum", 1, 0, 1, FALSE)}
-         \cup {R("LabelNames", 0, sel, 1, "sum", 1, 0, 1, FALSE) : sel \in DOMAIN SelSeq}
-         \cup {R("LabelValues", 0, sel, 1, "sum", 1, n, 1, FALSE) : sel \in DOMAIN SelSeq, n \in DOMAIN NameSeq}
-         \cup {R("Series", 0, sel, 1, "sum", 1, 0, ln, sel # 1) : sel \in DOMAIN SelSeq, ln \in DOMAIN LnSeq}
-         \cup {R("AnalyzeQuery", 0, sel, 1, "sum", w, 0, 1, FALSE) : sel \in DOMAIN SelSeq, w \in DOMAIN WinSeq}
+PlanT == {R("SelectSeries", T, 1, gb, "sum", w, 0, 1, 0) : T \in AllT, gb \in DOMAIN GbSeq, w \in DOMAIN WinSeq}
+         \cup {R("SelectSeries", T, sel, gb, "sum", 1, 0, 1, 0) : T \in AllT, sel \in DOMAIN SelSeq, gb \in DOMAIN GbSeq}
+         \cup {R("SelectSeries", T, 1, gb, "avg", w, 0, 1, 0) : T \in AllT, gb \in DOMAIN GbSeq \cap {1, 2}, w \in DOMAIN WinSeq \cap {1, 2}}
+         \cup {R("GetProfileStats", 0, 1, 1, "sum", 1, 0, 1, 0)}
+PlanM == {R("SelectMergeProfile", T, sel, 1, "sum", w, 0, 1, 0) : T \in AllT, sel \in DOMAIN SelSeq, w \in DOMAIN WinSeq}
+         \cup {R("AnalyzeQuery", 0, sel, 1, "sum", w, 0, 1, 0) : sel \in DOMAIN SelSeq, w \in DOMAIN WinSeq}
+PlanL == {R("ProfileTypes", 0, 1, 1, "sum", 1, 0, 1, 0), R("GetProfileStats", 0, 1, 1, "sum", 1, 0, 1, 0)}
+         \cup {R("LabelNames", 0, sel, 1, "sum", 1, 0, 1, 0) : sel \in DOMAIN SelSeq}
+         \cup {R("LabelNames", 0, 2, 1, "sum", 1, 0, 1, sel2) : sel2 \in DOMAIN SelSeq \ {2}}
+         \cup {R("LabelValues", 0, sel, 1, "sum", 1, n, 1, 0) : sel \in DOMAIN SelSeq, n \in DOMAIN NameSeq}
+         \cup {R("LabelValues", 0, 2, 1, "sum", 1, n, 1, sel2) : sel2 \in DOMAIN SelSeq \ {1, 2}, n \in DOMAIN NameSeq}
+         \cup {R("Series", 0, sel, 1, "sum", 1, 0, ln, sel2) : sel \in DOMAIN SelSeq, ln \in DOMAIN LnSeq, sel2 \in {0} \cup (DOMAIN SelSeq \ {1})}
+         \cup {R("AnalyzeQuery", 0, sel, 1, "sum", w, 0, 1, 0) : sel \in DOMAIN SelSeq, w \in DOMAIN WinSeq}
 Requests == CASE Plan = "T" -> PlanT [] Plan = "M" -> PlanM [] Plan = "L" -> PlanL [] OTHER -> PlanT \cup PlanM \cup PlanL
 
 \* the request expanded
 RQ == [ep |-> req.ep, T |-> IF req.T = 0 THEN NoType ELSE TypeReqs[req.T], sel |-> SelSeq[req.sel], gb |-> GbSeq[req.gb],
        agg |-> req.agg, s |-> WinSeq[req.w][1], e |-> WinSeq[req.w][2],
-       name |-> IF req.name = 0 THEN "" ELSE NameSeq[req.name], ln |-> LnSeq[req.ln], m |-> req.m]
+       name |-> IF req.name = 0 THEN "" ELSE NameSeq[req.name], ln |-> LnSeq[req.ln],
+       \* the list of matchers: none (or {} alone, the driver's choice) | the one | the two, in this order
+       sels |-> IF req.sel2 = 0 THEN (IF req.sel = 1 THEN <<>> ELSE <<SelSeq[req.sel]>>) ELSE <<SelSeq[req.sel], SelSeq[req.sel2]>>]
 
 (******************************* behaviour *********************************)
 Init == db = <<>> /\ req = None
@@ -105,8 +110,8 @@ Mech(Q) ==
     CASE req.ep = "SelectSeries"       -> MechSelectSeries(db, RQ, Q)
       [] req.ep = "SelectMergeProfile" -> MechMergeProfile(db, RQ, Q)
       [] req.ep = "ProfileTypes"       -> [types |-> MechProfileTypes(db)]
-      [] req.ep = "LabelNames"         -> [names |-> MechLabelNames(db, RQ.sel)]
-      [] req.ep = "LabelValues"        -> [names |-> MechLabelValues(db, RQ.name, RQ.sel)]
+      [] req.ep = "LabelNames"         -> [names |-> MechLabelNames(db, RQ.sels)]
+      [] req.ep = "LabelValues"        -> [names |-> MechLabelValues(db, RQ.name, RQ.sels)]
       [] req.ep = "Series"             -> [sets |-> MechSeries(db, RQ, Q)]
       [] req.ep = "AnalyzeQuery"       -> MechAnalyze(db, RQ)
       [] req.ep = "GetProfileStats"    -> MechStats(db)
@@ -115,8 +120,8 @@ Def ==
     CASE req.ep = "SelectSeries"       -> DefSelectSeries(db, RQ)
       [] req.ep = "SelectMergeProfile" -> DefMergeProfile(db, RQ)
       [] req.ep = "ProfileTypes"       -> [types |-> DefProfileTypes(db)]
-      [] req.ep = "LabelNames"         -> [names |-> DefLabelNames(db, RQ.sel)]
-      [] req.ep = "LabelValues"        -> [names |-> DefLabelValues(db, RQ.name, RQ.sel)]
+      [] req.ep = "LabelNames"         -> [names |-> DefLabelNames(db, RQ.sels)]
+      [] req.ep = "LabelValues"        -> [names |-> DefLabelValues(db, RQ.name, RQ.sels)]
       [] req.ep = "Series"             -> [sets |-> DefSeries(db, RQ)]
       [] req.ep = "AnalyzeQuery"       -> DefAnalyze(db, RQ)
       [] req.ep = "GetProfileStats"    -> DefStats(db)
@@ -131,7 +136,7 @@ QuirksExplain == LET ma == Mech(AllQuirks) IN ma # Def => FiredOf(ma) # {}
 Laws ==
     CASE req.ep = "SelectSeries"       -> LawConservation(db, RQ) /\ LawGrouping(db, RQ) /\ LawTypes(db, RQ.T)
       [] req.ep = "SelectMergeProfile" -> LawMergeTotal(db, RQ)
-      [] req.ep = "LabelNames"         -> LawLabels(db, RQ.sel)
+      [] req.ep = "LabelNames"         -> LawLabels(db, RQ.sels)
       [] OTHER                         -> TRUE
 
 (********************************* export **********************************)
